@@ -74,6 +74,7 @@ func runC06(c *mon.Ctx) {
 		nr := r.IntN(5)
 		a0.Cond.Restrictions = nil
 		wantNotIn := false
+		foreign := false
 		for i := 0; i < nr; i++ {
 			var auds []string
 			matched := false
@@ -83,6 +84,11 @@ func runC06(c *mon.Ctx) {
 					kind = 0
 				}
 				au := audOf(kind)
+				if r.IntN(40) == 0 {
+					// an element named Audience in a foreign namespace holding the configured value: not a SAML Audience
+					au = sim.ForeignMark + cfgAud
+					foreign = true
+				}
 				if au == cfgAud {
 					matched = true
 				}
@@ -109,6 +115,28 @@ func runC06(c *mon.Ctx) {
 			window = "ends-now"
 		}
 		a0.Cond.OneTimeUse = r.IntN(2) == 0
+		wantOTU := a0.Cond.OneTimeUse
+		twoConds := ""
+		if r.IntN(8) == 0 {
+			// the IdP (contrary to the schema) emits a second Conditions element: empty, or holding some of the conditions.
+			// "The first assertion contains an AudienceRestriction ..." does not depend on which Conditions element holds it
+			ex := &sim.Cond{}
+			twoConds = "second-empty"
+			if n := len(a0.Cond.Restrictions); n > 0 && r.IntN(2) == 0 {
+				cut := r.IntN(n)
+				ex.Restrictions = append(ex.Restrictions, a0.Cond.Restrictions[cut:]...)
+				a0.Cond.Restrictions = a0.Cond.Restrictions[:cut]
+				twoConds = fmt.Sprintf("restrictions-split-at-%d", cut)
+			}
+			if a0.Cond.OneTimeUse && r.IntN(2) == 0 {
+				a0.Cond.OneTimeUse, ex.OneTimeUse = false, true
+				twoConds += "+otu-in-second"
+			}
+			if r.IntN(3) > 0 {
+				ex.NotBefore, ex.NotOnOrAfter = a0.Cond.NotBefore, a0.Cond.NotOnOrAfter // the same validity window again
+			}
+			a0.Cond.Extra = ex
+		}
 		if r.IntN(5) == 0 {
 			a0.Authn = nil // an assertion without an AuthnStatement still has its conditions summarised
 		}
@@ -156,11 +184,15 @@ func runC06(c *mon.Ctx) {
 			cs.Note("%v", err)
 			continue
 		}
-		cs.Desc("window=%s cfgAud=%q restrictions=%q otu=%v proxy=%s n=%d", window, cfgAud, a0.Cond.Restrictions, a0.Cond.OneTimeUse, proxyString(a0.Cond.Proxy), len(rec.Assertions))
+		cs.Desc("window=%s cfgAud=%q restrictions=%q otu=%v proxy=%s n=%d foreign=%v twoConditions=%q", window, cfgAud, a0.Cond.Restrictions, wantOTU, proxyString(a0.Cond.Proxy), len(rec.Assertions), foreign, twoConds)
 		cs.Input([]byte(doc))
 		sp, _, _ := pool.SPSource(k, now, signer)
 		sp.AudienceURI = cfgAud
 		ai, err := sp.RetrieveAssertionInfo(sim.Encode(doc, sim.RawLevel))
+		if err != nil && (foreign || twoConds != "") {
+			cs.Outcome("rejected-unusual-conditions") // foreign look-alike elements / a doubled Conditions element need not be accepted
+			continue
+		}
 		if err != nil {
 			cs.Outcome("rejected")
 			cs.Violation("conforming-rejected", "a conforming response (only its conditions vary) was rejected: %v", err)
@@ -181,9 +213,9 @@ func runC06(c *mon.Ctx) {
 			ok = false
 			cs.Violation(fmt.Sprintf("notinaudience-%v-want-%v", wi.NotInAudience, wantNotIn), "NotInAudience=%v; configured %q, restrictions %q", wi.NotInAudience, cfgAud, a0.Cond.Restrictions)
 		}
-		if wi.OneTimeUse != a0.Cond.OneTimeUse {
+		if wi.OneTimeUse != wantOTU {
 			ok = false
-			cs.Violation(fmt.Sprintf("onetimeuse-%v-want-%v", wi.OneTimeUse, a0.Cond.OneTimeUse), "OneTimeUse=%v but element present=%v", wi.OneTimeUse, a0.Cond.OneTimeUse)
+			cs.Violation(fmt.Sprintf("onetimeuse-%v-want-%v", wi.OneTimeUse, wantOTU), "OneTimeUse=%v but element present=%v", wi.OneTimeUse, wantOTU)
 		}
 		switch {
 		case a0.Cond.Proxy == nil && wi.ProxyRestriction != nil:
